@@ -1092,7 +1092,7 @@ PROPS = {
              " The registry has a client with a mixed-case name (Alice / S3cret); the Proxy-Authorization pool has the pair as configured and re-cased / padded spellings of it and of user:pass (alice, ALICE, s3cret, User, 'pass ')"
              " Borrowed: the plain-HTTP forwarding suite of C17 (c17), for request bytes that leave the endpoint beyond the authorised request (a third of the generated requests with a declared length carry a pipelined next request behind their body)"
              " One session in three carries an end-to-end Authorization header on every request (valid credentials of a configured client, a Bearer token, other Basic credentials): it never passes the gate and never spoils a connection accepted by its SNI"
-             " One session in four carries a header that only begins like a ping marker (x-ping: 10, 1.0, 11, \\"1, 1\\"; sec-fetch-mode: navigate-nested, ...): it is a tunnel request like any other and goes through the gate",
+             " One session in four carries a header that only begins like a ping marker (x-ping: 10 / 1.0 / 11 / `1, 1`; sec-fetch-mode: navigate-nested, ...): it is a tunnel request like any other and goes through the gate",
         explanation="theorems gate_sound, policy_authenticated_only_if_accepted, registry_accepts_iff, reject_is_407_no_egress, "
                     "egress_only_after_pass, registry_no_egress_without_credentials, decision_history_independent about TT/Model/Dispatch.lean",
         trusted=["HTTP/3 is driven live (a sample of sessions over real QUIC on loopback): quiche on both sides is trusted, and timing there is the wall clock",
